@@ -19,6 +19,7 @@ distinct URLs over everything generated.
 T2: the driver returns the model's URL, method, headers, body selector, time-out and the spec decoder's reading of
 that URL for the same inputs; compared verbatim.  Function level: _escape_grouping_key, quote_plus,
 urlsafe_b64encode, the scheme test of urlparse (+ base URL), and the spec decoders against CPython's.
+The library's own handlers (default / passthrough-redirect / basic-auth) on a loopback server: props/c19handlers.py.
 
 History: the plain branch used quote_plus (space -> '+'), which the Pushgateway reads as a literal plus; repaired in
 /repo (quote(v, safe=''), space -> %20).  Reverting the repair is the C19:space-as-plus failure class.
@@ -657,6 +658,7 @@ def run(ctx):
                                      'generate_latest(registry), headers with the single text content type; sizes (bytes): %s'
                                      % sorted(ctx.extra.pop('_big_sizes', [])))
     function_level(ctx, 600 if ctx.tier == 'quick' else 20000)
+    from props import c19handlers; c19handlers.run(ctx)      # the library's own handlers on the wire
     ctx.extra.pop('_urls', None)
     ctx.extra.pop('_big_shrunk', None)
     ctx.extra['exhaustive_part'] = ('%d strings enumerated exhaustively (length <= 3 over the reduced alphabet, <= 2 over the full '
@@ -680,6 +682,8 @@ def replay(ctx, case):
         return 1 if ctx.failures or ctx.divergences or ctx.broken else 0
     _setup()
     kind = c.get('kind', 'use')
+    if kind.startswith('h'):
+        from props import c19handlers; return c19handlers.replay(ctx, case)
     if kind == 'use':
         print('replaying %s(gateway=%r, job=%r, grouping_key=%r, timeout=%r)%s' % (
             c['fn'], c['host_spelled'], c['job'], dict((k, v) for k, v in c['gk']), c['timeout'],
